@@ -1,4 +1,698 @@
-//! C20: not built yet.
-use crate::util::Ctx;
+//! C20 — validating without a schema is a relaxation.
+//!
+//! Streams (Lean model: Model/Standalone.lean):
+//!   c20.standalone  doc            → sorted diagnostic kinds of `ast::Document::validate_standalone_executable`
+//!   c20.schema      schema-view doc → sorted modelled diagnostic kinds of `ExecutableDocument::parse_and_validate`
+//! Oracles on the implementation (independent of the model):
+//!   O1  a document that validates against one of the schemas validates standalone;
+//!   O2  no standalone diagnostic belongs to a class whose truth depends on the schema.
+use crate::util::*;
+use apollo_compiler::ast::OperationType;
+use apollo_compiler::schema::ExtendedType;
+use apollo_compiler::validation::{DiagnosticList, Valid};
+use apollo_compiler::{ast, ExecutableDocument, Schema};
+use std::collections::{BTreeSet, HashMap};
 
-pub fn run(_ctx: &mut Ctx) {}
+// ---------------------------------------------------------------- documents
+
+#[derive(Clone, Debug)]
+pub(crate) enum Val { Var(String), Bool(bool), Str(String), Null, Int, Enum, List(Vec<String>), Obj(Vec<String>) }
+#[derive(Clone, Debug)]
+pub(crate) struct Arg { pub name: String, pub value: Val }
+#[derive(Clone, Debug)]
+pub(crate) struct Dir { pub name: String, pub args: Vec<Arg> }
+#[derive(Clone, Debug)]
+pub(crate) enum Sel {
+    Field { alias: Option<String>, name: String, dirs: Vec<Dir>, args: Vec<Arg>, sub: Vec<Sel> },
+    Spread { frag: String, dirs: Vec<Dir> },
+    Inline { tc: Option<String>, dirs: Vec<Dir>, sub: Vec<Sel> },
+}
+#[derive(Clone, Debug)]
+pub(crate) struct VarDef { pub name: String, pub ty: String, pub dirs: Vec<Dir> }
+#[derive(Clone, Debug)]
+pub(crate) struct Op { pub ty: u8, pub name: Option<String>, pub vars: Vec<VarDef>, pub dirs: Vec<Dir>, pub sels: Vec<Sel> }
+#[derive(Clone, Debug)]
+pub(crate) struct Frag { pub name: String, pub tc: String, pub dirs: Vec<Dir>, pub sels: Vec<Sel> }
+#[derive(Clone, Debug)]
+pub(crate) enum Def { Op(Op), Frag(Frag), TypeSystem }
+
+fn p_val(v: &Val, o: &mut String) {
+    match v {
+        Val::Var(n) => { o.push('$'); o.push_str(n); }
+        Val::Bool(b) => o.push_str(if *b { "true" } else { "false" }),
+        Val::Str(s) => { o.push('"'); o.push_str(s); o.push('"'); }
+        Val::Null => o.push_str("null"),
+        Val::Int => o.push('7'),
+        Val::Enum => o.push('X'),
+        Val::List(vs) => { o.push_str("[1"); for v in vs { o.push_str(" $"); o.push_str(v); } o.push(']'); }
+        Val::Obj(vs) => { if vs.is_empty() { o.push_str("{x: 1}"); } else { o.push_str("{x: $"); o.push_str(&vs[0]); o.push('}'); } }
+    }
+}
+fn p_args(a: &[Arg], o: &mut String) {
+    if a.is_empty() { return; }
+    o.push('(');
+    for (i, x) in a.iter().enumerate() { if i > 0 { o.push_str(", "); } o.push_str(&x.name); o.push_str(": "); p_val(&x.value, o); }
+    o.push(')');
+}
+fn p_dirs(d: &[Dir], o: &mut String) {
+    for x in d { o.push_str(" @"); o.push_str(&x.name); p_args(&x.args, o); }
+}
+fn p_sels(s: &[Sel], o: &mut String) {
+    o.push_str(" {");
+    for x in s {
+        o.push(' ');
+        match x {
+            Sel::Field { alias, name, dirs, args, sub } => {
+                if let Some(a) = alias { o.push_str(a); o.push_str(": "); }
+                o.push_str(name); p_args(args, o); p_dirs(dirs, o);
+                if !sub.is_empty() { p_sels(sub, o); }
+            }
+            Sel::Spread { frag, dirs } => { o.push_str("..."); o.push_str(frag); p_dirs(dirs, o); }
+            Sel::Inline { tc, dirs, sub } => {
+                o.push_str("...");
+                if let Some(t) = tc { o.push_str(" on "); o.push_str(t); }
+                p_dirs(dirs, o); p_sels(sub, o);
+            }
+        }
+    }
+    o.push_str(" }");
+}
+pub(crate) fn doc_text(defs: &[Def]) -> String {
+    let mut o = String::new();
+    for d in defs {
+        match d {
+            Def::Op(op) => {
+                let kw = ["query", "mutation", "subscription"][op.ty as usize];
+                let shorthand = op.ty == 0 && op.name.is_none() && op.vars.is_empty() && op.dirs.is_empty();
+                if !shorthand {
+                    o.push_str(kw);
+                    if let Some(n) = &op.name { o.push(' '); o.push_str(n); }
+                    if !op.vars.is_empty() {
+                        o.push('(');
+                        for (i, v) in op.vars.iter().enumerate() {
+                            if i > 0 { o.push_str(", "); }
+                            o.push('$'); o.push_str(&v.name); o.push_str(": "); o.push_str(&v.ty); p_dirs(&v.dirs, &mut o);
+                        }
+                        o.push(')');
+                    }
+                    p_dirs(&op.dirs, &mut o);
+                }
+                p_sels(&op.sels, &mut o);
+            }
+            Def::Frag(f) => {
+                o.push_str("fragment "); o.push_str(&f.name); o.push_str(" on "); o.push_str(&f.tc);
+                p_dirs(&f.dirs, &mut o); p_sels(&f.sels, &mut o);
+            }
+            Def::TypeSystem => o.push_str("scalar Zz"),
+        }
+        o.push('\n');
+    }
+    o
+}
+
+// ---------------------------------------------------------------- encoding for the model
+
+pub(crate) struct Intern { pub map: HashMap<String, usize> }
+impl Intern {
+    pub fn new() -> Self {
+        let mut map = HashMap::new();
+        for (i, n) in ["skip", "include", "defer", "if", "label", "__typename", "__schema", "__type", "String", "__Schema", "__Type"].iter().enumerate() { map.insert(n.to_string(), i); }
+        Intern { map }
+    }
+    pub fn id(&mut self, s: &str) -> usize { let n = self.map.len(); *self.map.entry(s.to_string()).or_insert(n) }
+}
+pub(crate) fn inner_name(ty: &str) -> String { ty.chars().filter(|c| c.is_ascii_alphanumeric() || *c == '_').collect() }
+
+fn e_val(v: &Val, it: &mut Intern, o: &mut Vec<String>) {
+    match v {
+        Val::Var(n) => o.push(format!("v{}", it.id(n))),
+        Val::Bool(b) => o.push(if *b { "bt".into() } else { "bf".into() }),
+        Val::Str(s) => o.push(format!("s{}", it.id(s))),
+        Val::Null => o.push("n".into()),
+        Val::Int | Val::Enum => o.push("o0".into()),
+        Val::List(vs) | Val::Obj(vs) => { o.push(format!("o{}", vs.len())); for v in vs { o.push(it.id(v).to_string()); } }
+    }
+}
+fn e_args(a: &[Arg], it: &mut Intern, o: &mut Vec<String>) {
+    o.push(a.len().to_string());
+    for x in a { o.push(it.id(&x.name).to_string()); e_val(&x.value, it, o); }
+}
+fn e_dirs(d: &[Dir], it: &mut Intern, o: &mut Vec<String>) {
+    o.push(d.len().to_string());
+    for x in d { o.push(it.id(&x.name).to_string()); e_args(&x.args, it, o); }
+}
+fn e_sels(s: &[Sel], it: &mut Intern, o: &mut Vec<String>) {
+    for x in s {
+        match x {
+            Sel::Field { name, dirs, args, sub, .. } => { o.push("F".into()); o.push(it.id(name).to_string()); e_dirs(dirs, it, o); e_args(args, it, o); e_sels(sub, it, o); }
+            Sel::Spread { frag, dirs } => { o.push("S".into()); o.push(it.id(frag).to_string()); e_dirs(dirs, it, o); }
+            Sel::Inline { tc, dirs, sub } => {
+                o.push("I".into());
+                o.push(match tc { Some(t) => it.id(t).to_string(), None => "-".into() });
+                e_dirs(dirs, it, o); e_sels(sub, it, o);
+            }
+        }
+    }
+    o.push(".".into());
+}
+pub(crate) fn e_doc(defs: &[Def], it: &mut Intern) -> String {
+    let mut o = vec![];
+    for d in defs {
+        match d {
+            Def::Op(op) => {
+                o.push("O".into()); o.push(["q", "m", "s"][op.ty as usize].into());
+                o.push(match &op.name { Some(n) => it.id(n).to_string(), None => "-".into() });
+                o.push(op.vars.len().to_string());
+                for v in &op.vars { o.push(it.id(&v.name).to_string()); o.push(it.id(&inner_name(&v.ty)).to_string()); e_dirs(&v.dirs, it, &mut o); }
+                e_dirs(&op.dirs, it, &mut o); e_sels(&op.sels, it, &mut o);
+            }
+            Def::Frag(f) => { o.push("G".into()); o.push(it.id(&f.name).to_string()); o.push(it.id(&f.tc).to_string()); e_dirs(&f.dirs, it, &mut o); e_sels(&f.sels, it, &mut o); }
+            Def::TypeSystem => o.push("T".into()),
+        }
+    }
+    o.join(" ")
+}
+
+fn loc_code(l: &ast::DirectiveLocation) -> String {
+    use ast::DirectiveLocation::*;
+    match l {
+        Query => "q".into(), Mutation => "m".into(), Subscription => "s".into(), Field => "f".into(),
+        FragmentDefinition => "g".into(), FragmentSpread => "p".into(), InlineFragment => "i".into(),
+        VariableDefinition => "v".into(),
+        other => format!("t{}", other.name().len()),
+    }
+}
+
+/// The schema view, read from the real `Schema` through its public API
+/// (`root_operation`, `types`, `type_field`, `directive_definitions`).
+fn e_schema(s: &Schema, field_names: &[String], it: &mut Intern) -> String {
+    let mut o: Vec<String> = vec!["R".into()];
+    for t in [OperationType::Query, OperationType::Mutation, OperationType::Subscription] {
+        o.push(match s.root_operation(t) { Some(n) => it.id(n.as_str()).to_string(), None => "-".into() });
+    }
+    for (n, t) in &s.types {
+        let k = match t {
+            ExtendedType::Object(_) | ExtendedType::Interface(_) | ExtendedType::Union(_) => "c",
+            ExtendedType::Scalar(_) | ExtendedType::Enum(_) => "l",
+            ExtendedType::InputObject(_) => "i",
+        };
+        o.push("K".into()); o.push(it.id(n.as_str()).to_string()); o.push(k.into());
+        if k == "c" {
+            for f in field_names {
+                let Ok(fname) = apollo_compiler::Name::new(f) else { continue };
+                if let Ok(fd) = s.type_field(n.as_str(), &fname) {
+                    o.push("Y".into()); o.push(it.id(n.as_str()).to_string()); o.push(it.id(f).to_string());
+                    o.push(it.id(fd.ty.inner_named_type().as_str()).to_string());
+                    o.push(fd.arguments.len().to_string());
+                    for a in &fd.arguments { o.push(it.id(a.name.as_str()).to_string()); o.push((a.is_required() as u8).to_string()); }
+                }
+            }
+        }
+    }
+    for (n, d) in &s.directive_definitions {
+        o.push("D".into()); o.push(it.id(n.as_str()).to_string()); o.push((d.repeatable as u8).to_string());
+        o.push(d.locations.len().to_string());
+        for l in &d.locations { o.push(loc_code(l)); }
+        o.push(d.arguments.len().to_string());
+        for a in &d.arguments { o.push(it.id(a.name.as_str()).to_string()); o.push((a.is_required() as u8).to_string()); }
+    }
+    o.join(" ")
+}
+
+// ---------------------------------------------------------------- running the implementation
+
+const DEFER_KINDS: [&str; 4] = ["DuplicateDeferLabel", "DeferLabelMustNotBeVariable", "DeferOnRootMutationOrSubscriptionField", "DeferInSubscriptionMustBeConditional"];
+/// kinds the with-schema model produces (everything else comes from typed rules that are not modelled)
+const MODELLED: [&str; 25] = [
+    "AmbiguousAnonymousOperation", "OperationNameCollision", "FragmentNameCollision", "TypeSystemDefinition", "UniqueArgument",
+    "UniqueVariable", "UnusedVariable", "UndefinedFragment", "RecursiveFragmentDefinition", "UnusedFragment",
+    "UndefinedDirective", "UniqueDirective", "UnsupportedLocation", "UndefinedArgument", "RequiredArgument",
+    "UndefinedRootOperation", "UndefinedTypeInNamedFragmentTypeCondition", "UndefinedTypeInInlineFragmentTypeCondition",
+    "UndefinedField", "SubselectionOnLeaf", "MissingSubselection", "InvalidFragmentTarget", "VariableInputType", "UndefinedDefinition",
+    "OutOfFuel",
+];
+/// Classes whose truth depends on what the schema defines (GraphQL October 2021 §5: rules that mention
+/// a type, a field definition, a directive definition or an argument definition).  A standalone run has
+/// no schema, so it has no ground to report any of these.
+const SCHEMA_DEPENDENT: [&str; 27] = [
+    "UndefinedDirective", "UniqueDirective", "UnsupportedLocation", "UndefinedArgument", "RequiredArgument",
+    "UndefinedRootOperation", "UndefinedTypeInNamedFragmentTypeCondition", "UndefinedTypeInInlineFragmentTypeCondition",
+    "UndefinedField", "SubselectionOnScalarType", "SubselectionOnEnumType", "MissingSubselection", "InvalidFragmentTarget",
+    "InvalidFragmentSpread", "VariableInputType", "UndefinedDefinition", "DisallowedVariableUsage", "UnsupportedValueType",
+    "UndefinedEnumValue", "UndefinedInputValue", "RequiredField", "IntCoercionError", "FloatCoercionError",
+    "ConflictingFieldType", "ConflictingFieldName", "ConflictingFieldArgument", "UniqueInputValue",
+];
+
+pub(crate) fn kinds(l: &DiagnosticList) -> Vec<String> {
+    l.iter().map(|d| d.error.unstable_error_name().unwrap_or("Unnamed").to_string()).collect()
+}
+fn canon(mut ks: Vec<String>) -> String {
+    if ks.is_empty() { return "ok".into(); }
+    ks.sort();
+    ks.join(",")
+}
+
+/// Ok(kinds) of the standalone run; Err = syntax error / panic
+fn run_standalone(text: &str) -> Result<Vec<String>, String> {
+    match catch(|| {
+        let doc = ast::Document::parse(text, "d.graphql").map_err(|e| format!("syntax: {}", e.errors))?;
+        Ok(match doc.validate_standalone_executable() { Ok(()) => vec![], Err(l) => kinds(&l) })
+    }) {
+        Ok(r) => r,
+        Err(p) => Err(format!("panic: {p}")),
+    }
+}
+fn run_schema(schema: &Valid<Schema>, text: &str) -> Result<Vec<String>, String> {
+    match catch(|| match ExecutableDocument::parse_and_validate(schema, text, "d.graphql") { Ok(_) => vec![], Err(e) => kinds(&e.errors) }) {
+        Ok(r) => Ok(r),
+        Err(p) => Err(format!("panic: {p}")),
+    }
+}
+
+pub(crate) static DOCN: std::sync::atomic::AtomicUsize = std::sync::atomic::AtomicUsize::new(0);
+
+struct World { schemas: Vec<(String, Valid<Schema>)>, field_names: Vec<String> }
+
+pub(crate) fn has_directive(defs: &[Def]) -> bool {
+    fn s(x: &[Sel]) -> bool {
+        x.iter().any(|y| match y {
+            Sel::Field { dirs, sub, .. } => !dirs.is_empty() || s(sub),
+            Sel::Spread { dirs, .. } => !dirs.is_empty(),
+            Sel::Inline { dirs, sub, .. } => !dirs.is_empty() || s(sub),
+        })
+    }
+    defs.iter().any(|d| match d {
+        Def::Op(o) => !o.dirs.is_empty() || o.vars.iter().any(|v| !v.dirs.is_empty()) || s(&o.sels),
+        Def::Frag(f) => !f.dirs.is_empty() || s(&f.sels),
+        Def::TypeSystem => false,
+    })
+}
+
+fn one(ctx: &mut Ctx, w: &World, defs: &[Def], family: &str) {
+    let text = doc_text(defs);
+    let text1 = text.replace('\n', " ");
+    ctx.stat(&format!("family_{family}"));
+    let sa = match run_standalone(&text) {
+        Ok(k) => k,
+        Err(e) => {
+            if e.starts_with("panic") { ctx.fail("standalone-panic", &text1, &e); } else { ctx.fail("generator-syntax-error", &text1, &e); }
+            return;
+        }
+    };
+    let with_dirs = has_directive(defs);
+    if with_dirs { ctx.stat("docs_with_directives"); }
+    if sa.is_empty() { ctx.stat("standalone_ok"); } else { ctx.stat("standalone_err"); }
+    for k in &sa { ctx.stat(&format!("standalone_kind_{k}")); }
+    // correspondence, standalone
+    let mut it = Intern::new();
+    let enc_doc = e_doc(defs, &mut it);
+    let sa_model: Vec<String> = sa.iter().filter(|k| !DEFER_KINDS.contains(&k.as_str())).cloned().collect();
+    ctx.case("c20.standalone", &[format!("={enc_doc}")], &canon(sa_model));
+    // O2: no schema-dependent class without a schema
+    let dep: BTreeSet<&str> = sa.iter().map(|k| k.as_str()).filter(|k| SCHEMA_DEPENDENT.contains(k)).collect();
+    if !dep.is_empty() {
+        let others: Vec<&str> = dep.iter().copied().filter(|k| *k != "UndefinedDirective").collect();
+        let key = if others.is_empty() { "standalone-undefined-directive".to_string() } else { format!("standalone-reports-schema-dependent:{}", others[0]) };
+        ctx.fail(&key, &text1, &format!("standalone validation reports {:?}, which no schema-less check can know", dep));
+    }
+    // against every schema
+    let docn = DOCN.fetch_add(1, std::sync::atomic::Ordering::Relaxed);
+    let mut valid_somewhere = false;
+    for (si, (sname, schema)) in w.schemas.iter().enumerate() {
+        let ws = match run_schema(schema, &text) {
+            Ok(k) => k,
+            Err(e) => { ctx.fail("schema-validation-panic", &text1, &e); continue; }
+        };
+        // correspondence, with schema (modelled kinds only); the first schema always, the others on a sample
+        if si == 0 || family == "fixed" || (docn + si) % 2 == 0 {
+            ctx.stat(&format!("schema_stream_{sname}"));
+            let mut it2 = Intern::new();
+            let enc_doc2 = e_doc(defs, &mut it2);
+            let enc_s = e_schema(schema, &w.field_names, &mut it2);
+            let m: Vec<String> = ws.iter().map(|k| if k == "SubselectionOnScalarType" || k == "SubselectionOnEnumType" { "SubselectionOnLeaf".to_string() } else { k.clone() })
+                .filter(|k| MODELLED.contains(&k.as_str())).collect();
+            ctx.case("c20.schema", &[format!("={enc_s}"), format!("={enc_doc2}")], &canon(m));
+        }
+        if ws.is_empty() {
+            valid_somewhere = true;
+            ctx.stat("valid_with_schema");
+            if with_dirs { ctx.stat("valid_with_schema_and_directives"); }
+            ctx.nontrivial(&format!("{si}|{text1}"));
+            // O1: the relaxation
+            if !sa.is_empty() {
+                let set: BTreeSet<&str> = sa.iter().map(|k| k.as_str()).collect();
+                let others: Vec<&str> = set.iter().copied().filter(|k| *k != "UndefinedDirective").collect();
+                let key = if others.is_empty() { "standalone-undefined-directive".to_string() } else { format!("standalone-stricter-than-schema:{}", others[0]) };
+                ctx.fail(&key, &text1, &format!("valid against schema {sname} but standalone validation reports {:?}", set));
+            }
+        }
+    }
+    if valid_somewhere { ctx.stat("docs_valid_somewhere"); } else { ctx.stat("docs_valid_nowhere"); }
+}
+
+// ---------------------------------------------------------------- generator
+
+pub(crate) const SCHEMA_A: &str = r#"
+directive @c(x: Int, l: [Int], o: In) repeatable on QUERY | MUTATION | SUBSCRIPTION | FIELD | FRAGMENT_DEFINITION | FRAGMENT_SPREAD | INLINE_FRAGMENT | VARIABLE_DEFINITION
+directive @d(r: Int!) on FIELD | QUERY
+directive @defer(label: String, if: Boolean! = true) on FRAGMENT_SPREAD | INLINE_FRAGMENT
+type Query { a: Int b(x: Int, f: Boolean! = true, en: E, inp: In): String o: A i: I u: U l(r: Int!): [A!]! e: E }
+type Mutation { m(x: Int): A }
+type Subscription { s: A }
+type A implements I { a: Int b(x: Int): String o: A i: I u: U }
+type B implements I { a: Int o: A bb: Boolean }
+interface I { a: Int o: A }
+union U = A | B
+enum E { X Y }
+input In { x: Int }
+"#;
+pub(crate) const SCHEMA_B: &str = r#"
+directive @c(x: Int!) on FIELD
+type Query { a: Int b(x: Int, f: Boolean! = true, en: E, inp: In): String o: A i: I u: U l(r: Int!): [A!]! e: E }
+type A implements I { a: Int b(x: Int): String o: A i: I u: U }
+type B implements I { a: Int o: A bb: Boolean }
+interface I { a: Int o: A }
+union U = A | B
+enum E { X Y }
+input In { x: Int }
+"#;
+pub(crate) const SCHEMA_C: &str = r#"
+schema { query: Q mutation: M subscription: Sb }
+directive @c(x: Int, l: [Int], o: In) repeatable on QUERY | MUTATION | SUBSCRIPTION | FIELD | FRAGMENT_DEFINITION | FRAGMENT_SPREAD | INLINE_FRAGMENT | VARIABLE_DEFINITION
+directive @d(r: Int) repeatable on FIELD | QUERY | INLINE_FRAGMENT | FRAGMENT_SPREAD | FRAGMENT_DEFINITION | VARIABLE_DEFINITION | MUTATION | SUBSCRIPTION
+directive @u on FIELD | QUERY | MUTATION | SUBSCRIPTION | FRAGMENT_DEFINITION | FRAGMENT_SPREAD | INLINE_FRAGMENT | VARIABLE_DEFINITION
+directive @defer(label: String, if: Boolean! = true) on FRAGMENT_SPREAD | INLINE_FRAGMENT
+type Q { a: Int b(x: Int, f: Boolean! = true, en: E, inp: In): String o: A i: I u: U l(r: Int!): [A!]! e: E zz: Int }
+type M { m(x: Int): A }
+type Sb { s: A }
+type A implements I { a: Int b(x: Int): String o: A i: I u: U zz: A }
+type B implements I { a: Int o: A bb: Boolean }
+interface I { a: Int o: A }
+union U = A | B
+enum E { X Y }
+input In { x: Int }
+scalar Query
+"#;
+
+/// generation-side description of the object graph shared by the three schemas:
+/// (type, [(field, [(arg, kind, required)], result composite type or "")])
+type FieldRow = (&'static str, &'static [(&'static str, char, bool)], &'static str);
+fn fields_of(t: &str) -> &'static [FieldRow] {
+    match t {
+        "Query" => &[("a", &[], ""), ("b", &[("x", 'i', false), ("f", 'b', false), ("en", 'e', false), ("inp", 'n', false)], ""), ("o", &[], "A"), ("i", &[], "I"), ("u", &[], "U"), ("l", &[("r", 'i', true)], "A"), ("e", &[], ""),
+            ("__typename", &[], ""), ("__schema", &[], "__Schema"), ("__type", &[("name", 's', true)], "__Type")],
+        "__Schema" => &[("queryType", &[], "__Type"), ("types", &[], "__Type"), ("__typename", &[], "")],
+        "__Type" => &[("name", &[], ""), ("kind", &[], ""), ("ofType", &[], "__Type"), ("__typename", &[], "")],
+        "Mutation" => &[("m", &[("x", 'i', false)], "A")],
+        "Subscription" => &[("s", &[], "A")],
+        "A" => &[("a", &[], ""), ("b", &[("x", 'i', false)], ""), ("o", &[], "A"), ("i", &[], "I"), ("u", &[], "U"), ("__typename", &[], "")],
+        "B" => &[("a", &[], ""), ("o", &[], "A"), ("bb", &[], ""), ("__typename", &[], "")],
+        "I" => &[("a", &[], ""), ("o", &[], "A"), ("__typename", &[], "")],
+        _ => &[("__typename", &[], "")],
+    }
+}
+fn possible(t: &str) -> &'static [&'static str] {
+    match t { "__Schema" => &["__Schema"], "__Type" => &["__Type"], "A" => &["A"], "B" => &["B"], "I" | "U" => &["A", "B"], "Query" => &["Query"], "Mutation" => &["Mutation"], "Subscription" => &["Subscription"], _ => &[] }
+}
+fn overlaps(a: &str, b: &str) -> bool { possible(a).iter().any(|x| possible(b).contains(x)) }
+
+struct G<'a> {
+    r: &'a mut Rng,
+    /// probability (per mille) of a rule-breaking choice at each site
+    bad: u32,
+    /// probability (per mille) of attaching directives at a site
+    dirp: u32,
+    frag_tcs: Vec<String>,
+    counter: usize,
+    in_query: bool,
+}
+impl G<'_> {
+    fn bad(&mut self) -> bool { self.bad > 0 && self.r.chance(self.bad, 1000) }
+    fn fresh(&mut self, p: &str) -> String { self.counter += 1; format!("{p}{}", self.counter) }
+    fn bool_val(&mut self) -> Val {
+        match self.r.below(4) { 0 => Val::Var(format!("b{}", self.r.below(2))), 1 => Val::Bool(false), _ => Val::Bool(true) }
+    }
+    fn int_val(&mut self) -> Val {
+        match self.r.below(5) { 0 | 1 => Val::Var(format!("i{}", self.r.below(2))), 2 if self.bad() => Val::Null, _ => Val::Int }
+    }
+    fn dirs(&mut self, loc: char) -> Vec<Dir> {
+        let mut out = vec![];
+        if !self.r.chance(self.dirp, 1000) { return out; }
+        let n = 1 + self.r.below(3);
+        for _ in 0..n {
+            let sel_loc = matches!(loc, 'f' | 'p' | 'i');
+            let k = self.r.below(12);
+            let d = match k {
+                0..=2 if sel_loc => Dir { name: "skip".into(), args: vec![Arg { name: "if".into(), value: self.bool_val() }] },
+                3 | 4 if sel_loc => Dir { name: "include".into(), args: vec![Arg { name: "if".into(), value: self.bool_val() }] },
+                5 if matches!(loc, 'p' | 'i') && self.in_query => {
+                    let mut args = vec![];
+                    if self.r.chance(1, 2) { let l = if self.bad() { "dup".to_string() } else { self.fresh("l") }; args.push(Arg { name: "label".into(), value: Val::Str(l) }); }
+                    if self.r.chance(1, 3) { args.push(Arg { name: "if".into(), value: self.bool_val() }); }
+                    Dir { name: "defer".into(), args }
+                }
+                6 if loc == 'f' || loc == 'q' => Dir { name: "d".into(), args: if self.bad() { vec![] } else { vec![Arg { name: "r".into(), value: self.int_val() }] } },
+                7 if self.bad() => Dir { name: (*self.r.pick(&["u", "deprecated", "specifiedBy", "d", "skip"])).into(), args: vec![] },
+                _ => {
+                    let mut args = vec![];
+                    if self.r.chance(1, 2) { args.push(Arg { name: "x".into(), value: self.int_val() }); }
+                    if self.r.chance(1, 4) { args.push(Arg { name: "l".into(), value: Val::List(if self.r.chance(1, 2) { vec![format!("i{}", self.r.below(2))] } else { vec![] }) }); }
+                    if self.r.chance(1, 6) { args.push(Arg { name: "o".into(), value: Val::Obj(if self.r.chance(1, 2) { vec![format!("i{}", self.r.below(2))] } else { vec![] }) }); }
+                    if self.bad() { args.push(Arg { name: (*self.r.pick(&["x", "nope"])).into(), value: Val::Int }); }
+                    Dir { name: "c".into(), args }
+                }
+            };
+            out.push(d);
+        }
+        if self.bad() && !out.is_empty() { let d = out[0].clone(); out.push(d); }
+        if loc == 'v' {
+            // directives on a variable definition are constant: no variables inside
+            for d in out.iter_mut() { for a in d.args.iter_mut() {
+                a.value = match &a.value { Val::Var(n) if n.starts_with('b') => Val::Bool(true), Val::Var(_) => Val::Int, Val::List(_) => Val::List(vec![]), Val::Obj(_) => Val::Obj(vec![]), v => v.clone() };
+            } }
+        }
+        out
+    }
+    fn sels(&mut self, parent: &str, depth: usize, allow_spread_from: usize, root: bool) -> Vec<Sel> {
+        let n = 1 + self.r.below(if root && parent == "Subscription" { 1 } else { 3 });
+        let mut out = vec![];
+        for _ in 0..n {
+            let rows = fields_of(parent);
+            let k = self.r.below(10);
+            if k < 6 || depth >= 4 {
+                let leafs: Vec<&FieldRow> = rows.iter().filter(|r| r.2.is_empty()).collect();
+                let row: &FieldRow = if depth >= 4 && !leafs.is_empty() { leafs[self.r.below(leafs.len())] } else { &rows[self.r.below(rows.len())] };
+                let mut name = row.0.to_string();
+                if self.bad() { name = (*self.r.pick(&["zz", "nope", "__schema", "__type", "__typename", "a"])).to_string(); }
+                let mut args = vec![];
+                for (an, kind, req) in row.1 {
+                    if *req && self.bad() { continue; }
+                    if *req || self.r.chance(1, 2) {
+                        let v = match *kind {
+                            'b' => self.bool_val(),
+                            's' => Val::Str("A".into()),
+                            'e' => if self.r.chance(1, 2) { Val::Var(format!("e{}", self.r.below(2))) } else { Val::Enum },
+                            'n' => if self.r.chance(1, 2) { Val::Var(format!("n{}", self.r.below(2))) } else { Val::Obj(vec![]) },
+                            _ => self.int_val(),
+                        };
+                        args.push(Arg { name: an.to_string(), value: v });
+                    }
+                }
+                if self.bad() { args.push(Arg { name: (*self.r.pick(&["x", "nope"])).into(), value: Val::Int }); }
+                let mut sub = if row.2.is_empty() { vec![] } else { self.sels(row.2, depth + 1, allow_spread_from, false) };
+                if self.bad() { if sub.is_empty() { sub = vec![Sel::Field { alias: None, name: "a".into(), dirs: vec![], args: vec![], sub: vec![] }]; } else { sub.clear(); } }
+                let alias = if name != "__typename" && self.r.chance(9, 10) { Some(self.fresh("k")) } else { None };
+                let dirs = self.dirs('f');
+                out.push(Sel::Field { alias, name, dirs, args, sub });
+            } else if k < 8 {
+                let cands: Vec<&str> = ["A", "B", "I", "U", "Query", "__Schema", "__Type"].iter().copied().filter(|t| overlaps(t, parent)).collect();
+                let mut tc = if self.r.chance(1, 4) || cands.is_empty() { None } else { Some(cands[self.r.below(cands.len())].to_string()) };
+                if self.bad() { tc = Some((*self.r.pick(&["Nope", "E", "In", "B", "Int"])).to_string()); }
+                let inner = tc.clone().unwrap_or(parent.to_string());
+                let dirs = self.dirs('i');
+                let sub = self.sels(&inner, depth + 1, allow_spread_from, root && false);
+                out.push(Sel::Inline { tc, dirs, sub });
+            } else {
+                let cands: Vec<usize> = (allow_spread_from..self.frag_tcs.len()).filter(|j| overlaps(&self.frag_tcs[*j], parent)).collect();
+                let frag = if self.bad() { (*self.r.pick(&["Nope", "F0", "F1"])).to_string() }
+                    else if cands.is_empty() { continue } else { format!("F{}", cands[self.r.below(cands.len())]) };
+                let dirs = self.dirs('p');
+                out.push(Sel::Spread { frag, dirs });
+            }
+        }
+        if out.is_empty() { out.push(Sel::Field { alias: None, name: if parent == "U" { "__typename".into() } else { fields_of(parent)[0].0.into() }, dirs: vec![], args: vec![], sub: vec![] }); }
+        out
+    }
+}
+
+/// variables used by an operation (through every reachable fragment): written independently of the
+/// implementation, used only to declare the right variables
+fn collect_vars(defs_frags: &[Frag], sels: &[Sel], dirs: &[Dir], out: &mut BTreeSet<String>) {
+    fn dv(d: &[Dir], out: &mut BTreeSet<String>) { for x in d { av(&x.args, out); } }
+    fn av(a: &[Arg], out: &mut BTreeSet<String>) {
+        for x in a { match &x.value { Val::Var(n) => { out.insert(n.clone()); } Val::List(vs) | Val::Obj(vs) => { for v in vs { out.insert(v.clone()); } } _ => {} } }
+    }
+    fn go(fr: &[Frag], s: &[Sel], seen: &mut BTreeSet<String>, out: &mut BTreeSet<String>) {
+        for x in s {
+            match x {
+                Sel::Field { dirs, args, sub, .. } => { dv(dirs, out); av(args, out); go(fr, sub, seen, out); }
+                Sel::Inline { dirs, sub, .. } => { dv(dirs, out); go(fr, sub, seen, out); }
+                Sel::Spread { frag, dirs } => {
+                    dv(dirs, out);
+                    if seen.insert(frag.clone()) { if let Some(f) = fr.iter().find(|f| &f.name == frag) { dv(&f.dirs, out); go(fr, &f.sels, seen, out); } }
+                }
+            }
+        }
+    }
+    dv(dirs, out);
+    go(defs_frags, sels, &mut BTreeSet::new(), out);
+}
+fn spreads_in(s: &[Sel], out: &mut BTreeSet<String>) {
+    for x in s { match x { Sel::Field { sub, .. } | Sel::Inline { sub, .. } => spreads_in(sub, out), Sel::Spread { frag, .. } => { out.insert(frag.clone()); } } }
+}
+
+pub(crate) fn gen_doc(r: &mut Rng, clean: bool) -> Vec<Def> {
+    let bad = if clean { 0 } else { *r.pick(&[15u32, 30, 60, 120]) };
+    let dirp = *r.pick(&[0u32, 150, 300, 300, 600]);
+    let nfrag = r.below(4);
+    let mut g = G { r, bad, dirp, frag_tcs: vec![], counter: 0, in_query: true };
+    for _ in 0..nfrag { let t = (*g.r.pick(&["A", "A", "B", "I", "U"])).to_string(); g.frag_tcs.push(t); }
+    // operations
+    let nops = if g.r.chance(7, 10) { 1 } else { 2 + g.r.below(2) };
+    let mut ops: Vec<Op> = vec![];
+    for j in 0..nops {
+        let ty = match g.r.below(10) { 0 => 1u8, 1 => 2u8, _ => 0u8 };
+        g.in_query = ty == 0;
+        let root = ["Query", "Mutation", "Subscription"][ty as usize];
+        let mut name = if nops == 1 && g.r.chance(1, 2) { None } else { Some(format!("Op{j}")) };
+        if g.bad() { name = if g.r.chance(1, 2) { None } else { Some("Op0".into()) }; }
+        let dirs = g.dirs(['q', 'm', 's'][ty as usize]);
+        let sels = g.sels(root, 0, 0, true);
+        ops.push(Op { ty, name, vars: vec![], dirs, sels });
+    }
+    // fragments: fragment j spreads only higher-numbered ones unless a cycle is wanted
+    g.in_query = ops.iter().all(|o| o.ty == 0);
+    let mut frags: Vec<Frag> = vec![];
+    for j in 0..nfrag {
+        let tc = g.frag_tcs[j].clone();
+        let from = if g.bad() { 0 } else { j + 1 };
+        let dirs = g.dirs('g');
+        let sels = g.sels(&tc, 2, from, false);
+        let mut tcn = tc.clone();
+        if g.bad() { tcn = (*g.r.pick(&["Nope", "E", "Query"])).to_string(); }
+        let name = if g.bad() { "F0".to_string() } else { format!("F{j}") };
+        frags.push(Frag { name, tc: tcn, dirs, sels });
+    }
+    // every fragment should be used: spread the unreached ones from the first operation (inside a typed inline fragment)
+    if !ops.is_empty() {
+        let mut reached = BTreeSet::new();
+        let mut todo: Vec<String> = vec![];
+        for o in &ops { let mut s = BTreeSet::new(); spreads_in(&o.sels, &mut s); todo.extend(s); }
+        while let Some(f) = todo.pop() {
+            if reached.insert(f.clone()) { if let Some(fr) = frags.iter().find(|x| x.name == f) { let mut s = BTreeSet::new(); spreads_in(&fr.sels, &mut s); todo.extend(s); } }
+        }
+        for j in 0..nfrag {
+            let n = format!("F{j}");
+            if !reached.contains(&n) && !g.bad() && ops[0].ty == 0 {
+                let dirs = g.dirs('p');
+                let wrap = Sel::Field { alias: Some(g.fresh("k")), name: if g.frag_tcs[j] == "B" { "i".into() } else if g.frag_tcs[j] == "U" { "u".into() } else { "o".into() }, dirs: vec![], args: vec![],
+                    sub: vec![Sel::Spread { frag: n.clone(), dirs }] };
+                ops[0].sels.push(wrap);
+                let mut s = BTreeSet::new();
+                spreads_in(&frags[j].sels, &mut s);
+                let mut todo: Vec<String> = s.into_iter().collect();
+                reached.insert(n);
+                while let Some(f) = todo.pop() {
+                    if reached.insert(f.clone()) { if let Some(fr) = frags.iter().find(|x| x.name == f) { let mut s = BTreeSet::new(); spreads_in(&fr.sels, &mut s); todo.extend(s); } }
+                }
+            }
+        }
+    }
+    // variables: declare what is used (types follow the name), with the occasional slip
+    for o in ops.iter_mut() {
+        let mut used = BTreeSet::new();
+        collect_vars(&frags, &o.sels, &o.dirs, &mut used);
+        for v in used {
+            if g.bad() { continue; }
+            let mut ty = match v.chars().next() { Some('b') => "Boolean!", Some('e') => "E", Some('n') => "In", _ => "Int" }.to_string();
+            if ty == "E" && g.r.chance(1, 3) { ty = "E!".into(); }
+            if g.bad() { ty = (*g.r.pick(&["A", "Nope", "[In]", "E"])).to_string(); }
+            let dirs = if g.r.chance(1, 5) { g.dirs('v') } else { vec![] };
+            o.vars.push(VarDef { name: v.clone(), ty, dirs });
+            if g.bad() { o.vars.push(VarDef { name: v, ty: "Int".into(), dirs: vec![] }); }
+        }
+        if g.bad() { o.vars.push(VarDef { name: "unused".into(), ty: "Int".into(), dirs: vec![] }); }
+    }
+    let mut defs: Vec<Def> = vec![];
+    for o in ops { defs.push(Def::Op(o)); }
+    for f in frags { let at = if g.r.chance(1, 4) { g.r.below(defs.len() + 1) } else { defs.len() }; defs.insert(at, Def::Frag(f)); }
+    if g.bad() { let at = g.r.below(defs.len() + 1); defs.insert(at, Def::TypeSystem); }
+    defs
+}
+
+// ---------------------------------------------------------------- fixed inputs
+
+fn fld(name: &str, dirs: Vec<Dir>, sub: Vec<Sel>) -> Sel { Sel::Field { alias: None, name: name.into(), dirs, args: vec![], sub } }
+fn dir(name: &str, args: Vec<(&str, Val)>) -> Dir { Dir { name: name.into(), args: args.into_iter().map(|(n, v)| Arg { name: n.into(), value: v }).collect() } }
+fn q(sels: Vec<Sel>) -> Def { Def::Op(Op { ty: 0, name: None, vars: vec![], dirs: vec![], sels }) }
+
+pub(crate) fn fixed() -> Vec<Vec<Def>> {
+    let skip = || dir("skip", vec![("if", Val::Bool(true))]);
+    let incl_v = || dir("include", vec![("if", Val::Var("b0".into()))]);
+    let mut v = vec![];
+    // the probe of the property text
+    v.push(vec![q(vec![fld("a", vec![skip()], vec![])])]);
+    v.push(vec![q(vec![fld("a", vec![], vec![])])]);
+    v.push(vec![Def::Op(Op { ty: 0, name: Some("Q".into()), vars: vec![VarDef { name: "b0".into(), ty: "Boolean!".into(), dirs: vec![] }], dirs: vec![],
+        sels: vec![fld("o", vec![incl_v()], vec![Sel::Inline { tc: None, dirs: vec![skip()], sub: vec![fld("a", vec![], vec![])] }, Sel::Spread { frag: "F".into(), dirs: vec![incl_v()] }])] }),
+        Def::Frag(Frag { name: "F".into(), tc: "A".into(), dirs: vec![], sels: vec![fld("a", vec![skip()], vec![])] })]);
+    // custom directives in every location
+    let c = || dir("c", vec![("x", Val::Var("i0".into()))]);
+    v.push(vec![Def::Op(Op { ty: 0, name: Some("Q".into()), vars: vec![VarDef { name: "i0".into(), ty: "Int".into(), dirs: vec![dir("c", vec![])] }], dirs: vec![c(), c()],
+        sels: vec![fld("o", vec![c()], vec![Sel::Inline { tc: Some("A".into()), dirs: vec![c()], sub: vec![fld("a", vec![], vec![])] }, Sel::Spread { frag: "F".into(), dirs: vec![c()] }])] }),
+        Def::Frag(Frag { name: "F".into(), tc: "A".into(), dirs: vec![c()], sels: vec![fld("a", vec![], vec![])] })]);
+    // type-system built-ins in an executable location, an undefined directive, a repeated non-repeatable one
+    v.push(vec![q(vec![fld("a", vec![dir("deprecated", vec![])], vec![])])]);
+    v.push(vec![q(vec![fld("a", vec![dir("specifiedBy", vec![("url", Val::Str("u".into()))])], vec![])])]);
+    v.push(vec![q(vec![fld("a", vec![dir("u", vec![])], vec![])])]);
+    v.push(vec![q(vec![fld("a", vec![skip(), skip()], vec![])])]);
+    v.push(vec![q(vec![fld("a", vec![dir("skip", vec![])], vec![])])]);
+    v.push(vec![q(vec![fld("a", vec![dir("skip", vec![("if", Val::Bool(true)), ("if", Val::Bool(true))])], vec![])])]);
+    // the classes the property lists
+    v.push(vec![q(vec![Sel::Spread { frag: "Nope".into(), dirs: vec![] }])]);
+    v.push(vec![q(vec![fld("a", vec![], vec![])]), Def::Frag(Frag { name: "F".into(), tc: "A".into(), dirs: vec![], sels: vec![fld("a", vec![], vec![])] })]);
+    v.push(vec![q(vec![fld("o", vec![], vec![Sel::Spread { frag: "F".into(), dirs: vec![] }])]),
+        Def::Frag(Frag { name: "F".into(), tc: "A".into(), dirs: vec![], sels: vec![fld("o", vec![], vec![Sel::Spread { frag: "G".into(), dirs: vec![] }])] }),
+        Def::Frag(Frag { name: "G".into(), tc: "A".into(), dirs: vec![], sels: vec![Sel::Spread { frag: "F".into(), dirs: vec![] }] })]);
+    v.push(vec![Def::Op(Op { ty: 0, name: Some("Q".into()), vars: vec![VarDef { name: "i0".into(), ty: "Int".into(), dirs: vec![] }, VarDef { name: "i0".into(), ty: "Int".into(), dirs: vec![] }, VarDef { name: "i1".into(), ty: "Int".into(), dirs: vec![] }],
+        dirs: vec![], sels: vec![Sel::Field { alias: None, name: "b".into(), dirs: vec![], args: vec![Arg { name: "x".into(), value: Val::Var("i0".into()) }], sub: vec![] }] })]);
+    v.push(vec![q(vec![fld("a", vec![], vec![])]), q(vec![fld("a", vec![], vec![])]), q(vec![fld("a", vec![], vec![])])]);
+    v.push(vec![q(vec![fld("a", vec![], vec![])]), Def::Op(Op { ty: 0, name: Some("N".into()), vars: vec![], dirs: vec![], sels: vec![fld("a", vec![], vec![])] }),
+        Def::Op(Op { ty: 0, name: Some("N".into()), vars: vec![], dirs: vec![], sels: vec![fld("a", vec![], vec![])] })]);
+    v.push(vec![q(vec![fld("a", vec![], vec![])]), Def::TypeSystem]);
+    // things only a schema can object to
+    v.push(vec![q(vec![fld("nope", vec![], vec![fld("deeper", vec![], vec![Sel::Spread { frag: "Nope".into(), dirs: vec![] }])])])]);
+    v.push(vec![Def::Op(Op { ty: 1, name: None, vars: vec![], dirs: vec![], sels: vec![fld("m", vec![], vec![fld("a", vec![], vec![])])] })]);
+    v.push(vec![Def::Op(Op { ty: 2, name: None, vars: vec![], dirs: vec![], sels: vec![fld("s", vec![], vec![fld("a", vec![], vec![])])] })]);
+    v.push(vec![q(vec![Sel::Inline { tc: Some("Nope".into()), dirs: vec![], sub: vec![fld("a", vec![], vec![Sel::Spread { frag: "Nope".into(), dirs: vec![] }])] }])]);
+    v
+}
+
+pub fn run(ctx: &mut Ctx) {
+    let mut schemas = vec![];
+    for (n, src) in [("A", SCHEMA_A), ("B", SCHEMA_B), ("C", SCHEMA_C)] {
+        match Schema::parse_and_validate(src, "s.graphql") {
+            Ok(s) => schemas.push((n.to_string(), s)),
+            Err(e) => { ctx.fail("generator-schema-invalid", n, &e.errors.to_string().replace('\n', " ")); return; }
+        }
+    }
+    let field_names: Vec<String> = ["a", "b", "o", "i", "u", "l", "e", "m", "s", "bb", "zz", "nope", "deeper", "__typename", "__schema", "__type", "queryType", "types", "name", "kind", "ofType"].iter().map(|s| s.to_string()).collect();
+    let w = World { schemas, field_names };
+    for d in fixed() { one(ctx, &w, &d, "fixed"); }
+    let n = if ctx.thorough { 60_000 } else { 5_000 };
+    for i in 0..n {
+        let clean = i % 2 == 0;
+        let d = gen_doc(&mut ctx.rng, clean);
+        one(ctx, &w, &d, if clean { "clean" } else { "dirty" });
+    }
+}
